@@ -453,6 +453,53 @@ func R21() Rule {
 				}
 			}
 		}
+		// … and with the asserted signature: `storage.(interface{ DeleteTableMeta(name string) })` is satisfied
+		// by name AND type — a method that grows a result (`… error`) no longer matches and the assertion
+		// fails just as silently
+		for _, sf := range delScope {
+			for _, b := range sf.Blocks {
+				for _, in := range b.Instrs {
+					ta, isTA := in.(*ssa.TypeAssert)
+					if !isTA || !ta.CommaOk {
+						continue
+					}
+					ifc, isI := ta.AssertedType.Underlying().(*types.Interface)
+					if !isI || ifc.NumMethods() == 0 {
+						continue
+					}
+					stObj := P.Pkgs[core.PkgBttest].Types.Scope().Lookup("Storage")
+					if stObj == nil {
+						continue
+					}
+					stIface, _ := stObj.Type().Underlying().(*types.Interface)
+					for _, name := range P.Pkgs[core.PkgBttest].Types.Scope().Names() {
+						tn, isTN := P.Pkgs[core.PkgBttest].Types.Scope().Lookup(name).(*types.TypeName)
+						if !isTN || stIface == nil {
+							continue
+						}
+						var t types.Type = tn.Type()
+						if !types.Implements(t, stIface) {
+							t = types.NewPointer(tn.Type())
+							if !types.Implements(t, stIface) {
+								continue
+							}
+						}
+						// a storage that has every optional method by name must have them by signature
+						ms := types.NewMethodSet(t)
+						hasAllByName := true
+						for i := 0; i < ifc.NumMethods(); i++ {
+							if ms.Lookup(tn.Pkg(), ifc.Method(i).Name()) == nil {
+								hasAllByName = false
+							}
+						}
+						if !hasAllByName {
+							continue
+						}
+						c.Check(types.Implements(t, ifc), "R21", "D3/optional-interface-signature/"+core.TName(core.NamedOf(tn.Type())), ta.Pos(), "the storage's method has the signature the server asserts", "D3: "+tn.Name()+" has a method named like the optional interface the server asserts here, but with a different signature: the assertion fails silently and the optional step (removing the table's persisted metadata) is skipped — a deleted table reappears after a restart")
+					}
+				}
+			}
+		}
 		// the removal happens in the same critical section of the registry as the map delete:
 		// otherwise a CreateTable of the same name can slip in and have its fresh metadata removed
 		la := Locks(P)
@@ -574,6 +621,40 @@ func R21() Rule {
 			c.Check(okDir, "R21", "D4/cbtemulator-dir-wiring", main.Pos(), "the -dir flag is the Root of the LeveldbDiskStorage handed to the server", "D4: cbtemulator does not pass -dir to the disk storage")
 		} else {
 			c.Unknown("R21", "D4/cbtemulator-dir-wiring", token.NoPos, "cbtemulator main not found")
+		}
+
+		// ---- D6 a stored table opens whatever state a crash left its row directory in: the leveldb options
+		// never demand that the directory exists / does not exist (a crash between SetTableMeta and the first
+		// open, or inside Clear, leaves metadata without a row directory; the restart must still come up)
+		nOpt := 0
+		for _, f := range P.SrcFuncs(core.PkgBttest) {
+			for _, b := range f.Blocks {
+				for _, in := range b.Instrs {
+					st, isSt := in.(*ssa.Store)
+					if !isSt {
+						continue
+					}
+					fa, isFa := st.Addr.(*ssa.FieldAddr)
+					if !isFa {
+						continue
+					}
+					nn := core.NamedOf(fa.X.Type())
+					if nn == nil || nn.Obj().Pkg() == nil || !strings.HasSuffix(nn.Obj().Pkg().Path(), "goleveldb/leveldb/opt") || nn.Obj().Name() != "Options" {
+						continue
+					}
+					_, fname, _ := core.FieldName(fa)
+					switch fname {
+					case "ErrorIfMissing", "ErrorIfExist", "ReadOnly":
+						nOpt++
+						if bv, isB := core.ConstBool(st.Val); !isB || bv {
+							c.Bad("R21", fmt.Sprintf("D6/%s/leveldb-option-%s", core.FuncName(f), fname), st.Pos(), "D6: the row database is opened with %s set: after a crash that left the table's metadata without (or with) its row directory the restart panics instead of recovering", fname)
+						}
+					}
+				}
+			}
+		}
+		if nOpt == 0 {
+			c.Ok("R21", "D6/leveldb-open-options", token.NoPos, true, "no open option makes the presence or absence of the row directory an error")
 		}
 
 		// ---- D5 one backend write per row write
